@@ -37,6 +37,7 @@ RDATA = {
     ],
     "RRSIG:CNAME": ["CNAME 8 2 300 20300101000000 20200101000000 12345 @ c2ln"],
     "RRSIG:NSEC": ["NSEC 8 2 300 20300101000000 20200101000000 12345 @ c2ln"],
+    "RRSIG:NS": ["NS 8 2 300 20300101000000 20200101000000 12345 @ c2ln"],
 }
 TYPES = list(RDATA)
 TTLS = [0, 1, 300, 300, 3600, 2**31 - 1, 2**32 - 1]
@@ -82,6 +83,37 @@ def set_btree_branching(t):
     for cls in (dns.btree.BTree, dns.btree.BTreeDict, dns.btree.BTreeSet):
         cls.__init__.__kwdefaults__["t"] = t
     return t
+
+
+def raised_in_repo(e):
+    """True when the innermost frame of the exception's traceback is code of the dns package
+    (an exception of the code under test, not of the harness)."""
+    import os
+
+    tb = e.__traceback__
+    last = None
+    while tb is not None:
+        last = tb
+        tb = tb.tb_next
+    if last is None:
+        return False
+    fn = last.tb_frame.f_code.co_filename
+    return (os.sep + "dns" + os.sep) in fn and (os.sep + "checks" + os.sep) not in fn and (os.sep + "simkit" + os.sep) not in fn
+
+
+def first_violation_in_context(e):
+    """An exception raised while a Violation was propagating (e.g. by a `with` block's exit)
+    carries it as context: the Violation is the report."""
+    from simkit.core import Violation
+
+    c = e.__context__
+    seen = 0
+    while c is not None and seen < 20:
+        if isinstance(c, Violation):
+            return c
+        c = c.__context__
+        seen += 1
+    return None
 
 
 class Bench:
